@@ -124,6 +124,8 @@ class Models:
         'Option': {'None': 0, 'Some': 1}, 'Result': {'Ok': 0, 'Err': 1},
         'ControlFlow': {'Continue': 0, 'Break': 1}, 'Cow': {'Borrowed': 0, 'Owned': 1},
         'Ordering': {'Less': -1, 'Equal': 0, 'Greater': 1},
+        'Level': {'Error': 1, 'Warn': 2, 'Info': 3, 'Debug': 4, 'Trace': 5},
+        'LevelFilter': {'Off': 0, 'Error': 1, 'Warn': 2, 'Info': 3, 'Debug': 4, 'Trace': 5},
     }
 
     def adt(self, path, ops):
@@ -143,6 +145,8 @@ class Models:
         s = L.struct(p)
         if s is not None:
             return Agg(list(ops), p)
+        if segs[-1] == 'RangeFull':
+            return Agg([], 'RangeFull')
         if p in ('std::ops::Range', 'std::ops::RangeInclusive', 'Range', 'RangeInclusive'):
             return Agg(list(ops), segs[-1])
         if segs[-1] in ('OrderedFloat', 'NotNan', 'Reverse', 'Wrapping', 'PhantomData'):
@@ -459,7 +463,9 @@ class Models:
             if i < 0:
                 raise RustPanic('HashMap index: key not found')
             return Ref(v.entries[i], 1)
-        if isinstance(idx, Agg) and idx.ty in ('Range', 'RangeFrom', 'RangeTo', 'RangeFull'):
+        if isinstance(idx, Agg) and idx.ty == 'RangeFull':
+            return cont if isinstance(cont, Ref) else ref_to(v)
+        if isinstance(idx, Agg) and idx.ty in ('Range', 'RangeFrom', 'RangeTo'):
             raise Unsupported('range index')
         return self.it.index_ref(v if not (isinstance(v, Agg) and len(v.f) == 1) else deref(v.f[0]), idx)
 
